@@ -65,15 +65,18 @@ type Config struct {
 
 // Sim is one simulation.
 type Sim struct {
-	cfg     Config
-	wait    Waiter
-	rng     *rand.Rand
-	mu      sync.Mutex // protects pending, tasks, goids (goroutines may arrive concurrently)
-	pending []*request
-	tasks   []*Task
-	goids   map[int64]*Task
-	tickers []*Ticker
-	rootGo  int64
+	// LastExternalGrant is the event counter value at the latest grant to a goroutine started by the
+	// system under test (0 = none): such a goroutine was demonstrably still running at that event.
+	LastExternalGrant int64
+	cfg               Config
+	wait              Waiter
+	rng               *rand.Rand
+	mu                sync.Mutex // protects pending, tasks, goids (goroutines may arrive concurrently)
+	pending           []*request
+	tasks             []*Task
+	goids             map[int64]*Task
+	tickers           []*Ticker
+	rootGo            int64
 
 	tapePos int
 	Choices []int // every choice actually made (the tape to replay this run)
@@ -432,6 +435,9 @@ func (s *Sim) Run() {
 			r.onGrant()
 		}
 		s.note(r.task.ID, r.label)
+		if r.task.external {
+			s.LastExternalGrant = atomic.LoadInt64(&s.event)
+		}
 		close(r.ch)
 	}
 }
